@@ -272,9 +272,12 @@ RGet(r) ==
     /\ RecordReg([k |-> "get", r |-> r, v |-> <<>>, sregs |-> sregs, sget |-> sregs[r], aget |-> AlgGetReg(regs, r),
                   sseen |-> <<>>])
 \* Resuming is only done with a program counter that points at code (the stop address or the
-\* alternative entry of the puppet); a new stop begins afterwards with fresh initial values.
+\* alternative entry of the puppet) and a canonical stack pointer: x86-64 Linux kills a task that
+\* is resumed with rsp = 2^63 before it executes anything (measured with a bare ptrace tracer), so
+\* "visible to the program" has no observer there.  A new stop begins afterwards with fresh values.
 RResume ==
     /\ ("rip" \in Regs) => sregs["rip"] \in {IVal("rip"), <<"a", "alt">>}
+    /\ ("rsp" \in Regs) => sregs["rsp"] # <<"v", "2^63">>
     /\ seen' = regs /\ sseen' = sregs
     /\ regs' = RegFile0 /\ sregs' = RegFile0
     /\ RecordReg([k |-> "resume", r |-> "", v |-> <<>>, sregs |-> RegFile0, sget |-> <<>>, aget |-> <<>>,
@@ -305,7 +308,7 @@ AlgDisasm(variant, mem, bp) ==
                                                THEN (CHOOSE p \in inr : p[1] - F0 + 1 = i)[2] ELSE text[i]])>>
 
 DisJson(l) == [op |-> l.k, site |-> l.site, bps |-> l.bps, spec |-> "original",
-               alg |-> l.alg, algfix |-> l.algfix]
+               alg |-> l.alg, algfix |-> l.algfix, algmasked |-> l.algmasked, algraw |-> l.algraw]
 RecordDis(l) ==
     /\ last' = l
     /\ hist' = hist
@@ -319,15 +322,17 @@ DSetBp(a) ==
     /\ ~\E p \in bps : p[1] = a
     /\ bps' = bps \cup {<<a, tmem[a]>>}
     /\ tmem' = [tmem EXCEPT ![a] = INT3]
-    /\ RecordDis([k |-> "setbp", site |-> SiteName(a), bps |-> <<>>, alg |-> "", algfix |-> ""])
+    /\ RecordDis([k |-> "setbp", site |-> SiteName(a), bps |-> <<>>, alg |-> "", algfix |-> "", algmasked |-> "", algraw |-> ""])
 DRemoveBp(a) ==
     /\ \E p \in bps : p[1] = a /\ tmem' = [tmem EXCEPT ![a] = p[2]] /\ bps' = bps \ {p}
-    /\ RecordDis([k |-> "rmbp", site |-> SiteName(a), bps |-> <<>>, alg |-> "", algfix |-> ""])
+    /\ RecordDis([k |-> "rmbp", site |-> SiteName(a), bps |-> <<>>, alg |-> "", algfix |-> "", algmasked |-> "", algraw |-> ""])
 DDisasm ==
     /\ UNCHANGED <<tmem, bps>>
     /\ RecordDis([k |-> "disasm", site |-> "", bps |-> {SiteName(p[1]) : p \in bps},
                   alg |-> Outcome(AlgDisasm(DisVariant, tmem, bps)),
-                  algfix |-> Outcome(AlgDisasm("masked_excl", tmem, bps))])
+                  algfix |-> Outcome(AlgDisasm("masked_excl", tmem, bps)),
+                  algmasked |-> Outcome(AlgDisasm("masked", tmem, bps)),       \* Debugger::disasm as written
+                  algraw |-> Outcome(AlgDisasm("raw", tmem, bps))])           \* DAP disassemble as written
 
 MemInit == IF InitMem = "pack" THEN MemPack ELSE Mem0
 NoOp == [k |-> "init", a |-> Lo, n |-> 0, data |-> <<>>, pre |-> MemInit, spec |-> <<"ok", <<>> >>,
